@@ -532,7 +532,7 @@ def extract_char_selector_chain(repo: Path):
 
     def cond(test):
         need_len = need_kind = False
-        regex = None
+        regex = walrus = None
         for t in (test.values if isinstance(test, ast.BoolOp) and isinstance(test.op, ast.And) else [test]):
             u = ast.unparse(t)
             if u == "length is None":
@@ -543,27 +543,31 @@ def extract_char_selector_chain(repo: Path):
                 if regex:
                     raise RuntimeError(f"parse_type: two regular expressions in one condition: {u}")
                 regex = re.fullmatch(r"\((\w+) := (LEN_RE|KIND_RE)\.match\(arg\)\)", u).group(2)
+                walrus = re.fullmatch(r"\((\w+) := (LEN_RE|KIND_RE)\.match\(arg\)\)", u).group(1)
             else:
                 raise RuntimeError(f"parse_type: unexpected condition in the character parameter loop: {u[:90]!r}")
-        return need_len, need_kind, regex
+        return need_len, need_kind, regex, walrus
 
-    def target(body):
+    def target(body, walrus=None):
+        """(assigned variable, the raw argument is assigned): a branch whose regular expression matched must assign a
+        value taken from that match (how - group numbers, group names - is left to the correspondence streams)"""
         a = body[0]
         if isinstance(a, ast.Assign) and ast.unparse(a.targets[0]) in ("length", "kind"):
             t = ast.unparse(a.targets[0])
-            v = ast.unparse(a.value)
-            want = {"length": ("arg", "length_match.group(1) or length_match.group(2)"), "kind": ("arg", "kind_match.group(1)")}[t]
-            if v not in want:
-                raise RuntimeError(f"parse_type: unexpected value assigned in the character parameter loop: {t} = {v[:60]}")
-            return t, v == "arg"
+            names = {n.id for n in ast.walk(a.value) if isinstance(n, ast.Name)}
+            if ast.unparse(a.value) == "arg":
+                return t, True
+            if walrus and names == {walrus}:
+                return t, False
+            raise RuntimeError(f"parse_type: unexpected value assigned in the character parameter loop: {t} = {ast.unparse(a.value)[:60]}")
         raise RuntimeError(f"parse_type: unexpected branch body {ast.unparse(a)[:80]!r}")
 
     rules = []
 
     def chain(node, last):
         """an `if` statement (with its elif / else chain); last: it is the last statement of the loop body"""
-        nl, nk, rx = cond(node.test)
-        t, plain = target(node.body)
+        nl, nk, rx, wl = cond(node.test)
+        t, plain = target(node.body, wl)
         if plain != (rx is None):
             raise RuntimeError("parse_type: a branch assigns the raw argument after a regular expression matched (or the reverse)")
         rules.append((nl, nk, rx, t))
@@ -589,8 +593,73 @@ def extract_char_selector_chain(repo: Path):
     return rules
 
 
+PROCLINE: dict = {}  # filled by translate(): {"joins": [...], "tests": [...], "data": [...], "result_ci": bool}
+
+RESULT_TEST_CI = "(proc.proctype|lower eq 'function' and proc.name|lower ne proc.retvar.name|lower)"
+
+
+def _test_str(node):
+    """canonical text of a Jinja test expression"""
+    import jinja2.nodes as N
+
+    if isinstance(node, N.Name):
+        return node.name
+    if isinstance(node, N.Const):
+        return repr(node.value)
+    if isinstance(node, N.Getattr):
+        return _test_str(node.node) + "." + node.attr
+    if isinstance(node, N.Filter):
+        if node.args or node.kwargs:
+            raise RuntimeError("proc_line: filter with arguments in a test")
+        return _test_str(node.node) + "|" + node.name
+    if isinstance(node, N.Not):
+        return "not " + _test_str(node.node)
+    if isinstance(node, N.And):
+        return "(" + _test_str(node.left) + " and " + _test_str(node.right) + ")"
+    if isinstance(node, N.Or):
+        return "(" + _test_str(node.left) + " or " + _test_str(node.right) + ")"
+    if isinstance(node, N.Compare):
+        return _test_str(node.expr) + "".join(" " + o.op + " " + _test_str(o.expr) for o in node.ops)
+    raise RuntimeError("proc_line: unexpected node in a test: " + type(node).__name__)
+
+
+def extract_proc_line(repo: Path):
+    """macros.html, macro `proc_line`: (the `join` filters as (attribute of `proc`, separator), the tests of its `if`
+    statements as canonical text, the literal text between its output expressions with None for an expression), all
+    in source order"""
+    import jinja2
+    import jinja2.nodes as N
+
+    env = jinja2.Environment(trim_blocks=True, lstrip_blocks=True)
+    tree = env.parse((repo / "ford" / "templates" / "macros.html").read_text())
+    ms = [m for m in tree.find_all(N.Macro) if m.name == "proc_line"]
+    if len(ms) != 1:
+        raise RuntimeError("macros.html: macro proc_line not found once")
+    m = ms[0]
+    joins = []
+    for f in m.find_all(N.Filter):
+        if f.name == "join":
+            if not (isinstance(f.node, N.Getattr) and isinstance(f.node.node, N.Name) and f.node.node.name == "proc"
+                    and len(f.args) == 1 and isinstance(f.args[0], N.Const) and isinstance(f.args[0].value, str)):
+                raise RuntimeError("proc_line: unexpected join filter")
+            joins.append((f.node.attr, f.args[0].value))
+    tests = [_test_str(i.test) for i in m.find_all(N.If)]
+    data = []
+
+    def walk(node):
+        if isinstance(node, N.Output):
+            for ch in node.nodes:
+                data.append(ch.data if isinstance(ch, N.TemplateData) else None)
+            return
+        for ch in node.iter_child_nodes():
+            walk(ch)
+
+    walk(m)
+    return joins, tests, data
+
+
 def lean_str(s: str) -> str:
-    return '"' + s.replace("\\", "\\\\").replace('"', '\\"') + '"'
+    return '"' + s.replace("\\", "\\\\").replace('"', '\\"').replace("\n", "\\n") + '"'
 
 
 def translate():
@@ -634,6 +703,9 @@ def translate():
     head_args = extract_heading_args(repo)
     SORT.clear()
     SORT.update(collections=list(sort_colls), options=[k for k, _ in sort_opts], heading_args=head_args)
+    pl_joins, pl_tests, pl_data = extract_proc_line(repo)
+    PROCLINE.clear()
+    PROCLINE.update(joins=[list(x) for x in pl_joins], tests=list(pl_tests), data=list(pl_data), result_ci=RESULT_TEST_CI in pl_tests)
     csel = extract_char_selector_chain(repo)
     CHARSEL.clear()
     CHARSEL.extend(csel)
@@ -686,6 +758,14 @@ def translate():
         "def charSelRules : Ford.CharSel.Rules := [" + ", ".join(
             f"⟨{'true' if nl else 'false'}, {'true' if nk else 'false'}, .{ {None: 'none', 'LEN_RE': 'len', 'KIND_RE': 'kind'}[rx] }, .{t}⟩"
             for nl, nk, rx, t in csel) + "]",
+        "",
+        "/-- macros.html, `proc_line`: the `join` filters (attribute of `proc`, separator), the tests of the `if` statements and the",
+        "    literal text between the output expressions (`none` = an output expression), all in source order; whether the test of",
+        "    the RESULT clause compares the two names lower-cased -/",
+        "def procLineJoins : List (String × String) := [" + ", ".join(f"({lean_str(a)}, {lean_str(b)})" for a, b in pl_joins) + "]",
+        "def procLineTests : List String := [" + ", ".join(lean_str(x) for x in pl_tests) + "]",
+        "def procLineData : List (Option String) := [" + ", ".join("none" if x is None else "some " + lean_str(x) for x in pl_data) + "]",
+        f"def procLineResultCI : Bool := {'true' if RESULT_TEST_CI in pl_tests else 'false'}",
         "",
         f"def autoescape : Bool := {'true' if auto else 'false'}",
         "",
